@@ -361,6 +361,9 @@ fn fixed_histories() -> Vec<Vec<Op>> {
         vec![Initiate("/p/b.graphql"), Emit(1), Free(1), Emit(1), Required(1), Load(1, "/p/a.graphql")],
         vec![Initiate("/p/a.graphql"), Load(1, "/p/frags/f1.graphql"), Load(1, "/p/frags/f2.graphql"), Emit(1), Initiate("/p/b.graphql"), Emit(2), Free(1), Emit(1), Emit(2), Free(2), Emit(2)],
         vec![Initiate("/p/a.graphql"), Emit(1), Load(1, "/p/frags/f1.graphql"), Emit(1), Load(1, "/p/frags/f2.graphql"), Emit(1), Emit(1)],
+        // overlapping sessions: an older task is freed while a newer one is pending, then two more files arrive
+        vec![Initiate("/p/a.graphql"), Initiate("/p/b.graphql"), Free(1), Initiate("/p/b.graphql"), Initiate("/p/a.graphql"), Emit(2), Emit(1), Emit(3), Emit(4), Required(2), Free(2), Initiate("/p/b.graphql"), Emit(2), Emit(3), Free(3), Free(4), Initiate("/p/a.graphql"), Required(1), Required(2), Required(3), Required(4), Required(5)],
+        vec![Initiate("/p/b.graphql"), Initiate("/p/b.graphql"), Initiate("/p/a.graphql"), Free(2), Initiate("/p/a.graphql"), Initiate("/p/b.graphql"), Emit(1), Emit(2), Emit(3), Emit(4), Emit(5), Free(1), Free(3), Initiate("/p/b.graphql"), Emit(1), Emit(3), Emit(4), Emit(5), Emit(6)],
     ]
 }
 
